@@ -70,6 +70,18 @@ FILES['nested_include_via_I'] = {'inputs': {'main.prophy': '#include "sub/inner.
                                  'incdirs': ['.', 'other'],
                                  'extra': {'sub/inner.prophy': '#include "leaf.prophy"\nstruct I { u8 a[LEAF]; };\n',
                                            'leaf.prophy': 'const LEAF = 7;\n', 'other/leaf.prophy': 'const LEAF = 9;\n'}}
+# expressions and array sizes that mention enumerators of several enums defined after them: the order in which the
+# sort pulls those enums forward must not depend on anything but the input
+FILES['isar_cross_enum'] = {'inputs': {'m.xml': '''<xml>
+<constant name="KK" value="EA_X + EB_Y + EC_Z"/>
+<enum name="EM"><enum-member name="EM_A" value="EB_Y + EC_Z"/><enum-member name="EM_B" value="EA_X * 2 + ED_W"/></enum>
+<struct name="S"><member name="a" type="u8"><dimension size="EC_Z"/></member><member name="b" type="u16"><dimension size="ED_W"/></member><member name="m" type="EM"/></struct>
+<enum name="EA"><enum-member name="EA_X" value="1"/></enum>
+<enum name="EB"><enum-member name="EB_Y" value="2"/></enum>
+<enum name="EC"><enum-member name="EC_Z" value="3"/></enum>
+<enum name="ED"><enum-member name="ED_W" value="4"/></enum>
+</xml>
+'''}, 'mode': 'isar', 'extra': {}}
 GENS = ['--python_out', '--cpp_out', '--cpp_full_out', '--prophy_out']
 
 
